@@ -3,6 +3,7 @@
 package protocol
 
 import (
+	"encoding/base64"
 	"bytes"
 	"fmt"
 	"reflect"
@@ -332,4 +333,32 @@ func c14Summary(c c14Case) interface{} {
 
 func TestVerifC14a(t *testing.T) {
 	vfutil.Run(t, vfutil.Spec[c14Case]{ID: "C14", Gen: genC14, Run: runC14, Summary: c14Summary})
+}
+
+// FuzzVerifC14 is the coverage-guided variant of the "bytes" cases: the same
+// differential oracle (every decoder against the reference decoder), driven by
+// Go's native fuzzer in the thorough tier.
+func FuzzVerifC14(f *testing.F) {
+	for code := byte(0); code <= 14; code++ {
+		f.Add(vfutil.BuildEnvelope(code, []byte{}))
+		f.Add(vfutil.BuildEnvelope(code, []byte{0x0a, 0x03, 'f', 'o', 'o', 0x10, 0x01}))
+		f.Add(vfutil.BuildEnvelopeCRC(code, []byte{0x0a, 0x01, 'x'}))
+	}
+	f.Add([]byte{})
+	f.Add(append(append([]byte{}, vfutil.EnvelopeMagic...), 0, 200, 0, 3))
+	f.Add(append(append([]byte{}, vfutil.EnvelopeMagic...), 0, 7, 0, 3, 1, 2, 3))
+	f.Add(append(append([]byte{}, vfutil.EnvelopeMagic...), 0, 12, 1, 9, 0, 0, 0, 0))
+	f.Add(append(append([]byte{}, vfutil.EnvelopeMagic...), 0, 8, 0, 9, 0, 0, 0, 0, 0, 0, 0, 1, 0, 0, 0, 0, 0, 0, 0, 2, 9, 9))
+	f.Fuzz(func(t *testing.T, data []byte) {
+		// a failing seed entry is not saved by the fuzzer: print the input so that
+		// the driver can always build a replay file
+		defer func() {
+			if r := recover(); r != nil {
+				t.Fatalf("C14/panic: %v\ninput-base64: %s", r, base64.StdEncoding.EncodeToString(data))
+			}
+		}()
+		if fail := runC14(c14Case{Kind: "bytes", Data: data}, nil); fail != nil {
+			t.Fatalf("%s: %s\ninput-base64: %s", fail.Signature, fail.Message, base64.StdEncoding.EncodeToString(data))
+		}
+	})
 }
